@@ -321,7 +321,8 @@ func (u *c13Subject) reset(c *c13Case) error {
 				return err
 			}
 			if !lb.isFromShareMemory() {
-				return fmt.Errorf("no shared memory left for the queue preload")
+				return fmt.Errorf("no shared memory left for the queue preload (%d bytes of data, %d bytes free in the peer's buffer manager, %d in the subject's)",
+					len(data), u.peer.bufferManager.remainSize(), u.s.bufferManager.remainSize())
 			}
 			lb.done(false)
 			off = lb.rootBufOffset()
@@ -1112,31 +1113,52 @@ func TestVerif_C13(t *testing.T) {
 	defer out.close()
 	g := &c13Gen{r: newVrand(seed)}
 
-	listen := &c13Listen{}
-	cli, srv, err := c13NewPair("c13", listen)
-	if err != nil {
-		t.Fatal(err)
-	}
-	mk := func(s, peer *Session, l *c13Listen) *c13Subject {
-		u := &c13Subject{s: s, peer: peer, disp: &c13Dispatcher{}, origDisp: s.dispatcher, listen: l}
-		s.dispatcher = u.disp
-		return u
-	}
-	subjSrv := mk(srv, cli, listen)
-	subjCli := mk(cli, srv, nil)
-	defer func() {
+	// the subjects: a real client/server pair.  Queue elements for unknown, not-opened streams are skipped by
+	// handlePolling without recycling their buffers, so the shared memory of a pair slowly fills up with the
+	// generated preloads: a fresh pair is made when half of it is gone.
+	var subjSrv, subjCli *c13Subject
+	var initialFree uint32
+	pairNo := 0
+	closePair := func() {
+		if subjSrv == nil {
+			return
+		}
 		for _, u := range []*c13Subject{subjSrv, subjCli} {
 			u.reset(&c13Case{})
 			u.s.dispatcher = u.origDisp
 		}
-		cli.Close()
-		srv.Close()
-	}()
+		subjCli.s.Close()
+		subjSrv.s.Close()
+		subjSrv, subjCli = nil, nil
+	}
+	newPair := func() {
+		closePair()
+		listen := &c13Listen{}
+		pairNo++
+		// a distinct name per pair: buffer managers are shared process-wide by path
+		cli, srv, err := c13NewPair(fmt.Sprintf("c13_%d", pairNo), listen)
+		if err != nil {
+			t.Fatal(err)
+		}
+		mk := func(s, peer *Session, l *c13Listen) *c13Subject {
+			u := &c13Subject{s: s, peer: peer, disp: &c13Dispatcher{}, origDisp: s.dispatcher, listen: l}
+			s.dispatcher = u.disp
+			return u
+		}
+		subjSrv = mk(srv, cli, listen)
+		subjCli = mk(cli, srv, nil)
+		initialFree = srv.bufferManager.remainSize()
+	}
+	newPair()
+	defer closePair()
 
 	nHs := n / 6
 	nMeta := n / 6
 	for i := 0; i < n; i++ {
 		c := g.evCase(i)
+		if subjSrv.s.bufferManager.remainSize() < initialFree/2 {
+			newPair()
+		}
 		u := subjSrv
 		if c.Client {
 			u = subjCli
